@@ -595,6 +595,95 @@ Proof.
 Qed.
 
 
+(* ---- the final-evaluation files: absent, torn, or complete and correct -------------- *)
+
+Lemma ckpt_not_tsv x i : base ++ x <> tsv_name i.
+Proof. unfold base, checkpoint_prefix, tsv_name. cbn [app]. discriminate. Qed.
+
+Definition tsvsafe (e : ev) : Prop :=
+  match e with
+  | ECl n b => forall i, n = tsv_name i -> b = tsv i (st R) R
+  | ERn a b => forall i, b <> tsv_name i
+  | _ => True
+  end.
+
+Definition tsv_ok (d : dir) : Prop :=
+  forall i c, lookup d (tsv_name i) = Some c -> c = Torn \/ c = Whole (tsv i (st R) R).
+
+Lemma tsvsafe_step d e : tsv_ok d -> tsvsafe e -> tsv_ok (apply_ev d e).
+Proof.
+  intros Hd He i c. destruct e; cbn [apply_ev fs_step AtomFS.apply tsvsafe] in *; try (apply Hd).
+  - rewrite (lookup_set str_eqb str_eqb_spec). destruct (str_eqb n (tsv_name i)); [|apply Hd].
+    intros H. injection H as <-. now left.
+  - rewrite (lookup_set str_eqb str_eqb_spec). destruct (str_eqb n (tsv_name i)) eqn:E; [|apply Hd].
+    apply str_eqb_spec in E. intros H. injection H as <-. right. f_equal. now apply He.
+  - destruct (lookup d a) as [ca|] eqn:Ea; [|apply Hd].
+    rewrite (lookup_set str_eqb str_eqb_spec), (eqb_neq str_eqb str_eqb_spec) by apply He.
+    rewrite (lookup_del str_eqb str_eqb_spec). destruct (str_eqb a (tsv_name i)); [discriminate|apply Hd].
+  - rewrite (lookup_del str_eqb str_eqb_spec). destruct (str_eqb n (tsv_name i)); [discriminate|apply Hd].
+Qed.
+
+Lemma tsvsafe_prefix es : forall d, tsv_ok d -> Forall tsvsafe es -> forall m, tsv_ok (apply_evs d (firstn m es)).
+Proof.
+  induction es as [|e es IH]; intros d Hd Hs m; [now rewrite firstn_nil|].
+  destruct m as [|m]; [exact Hd|]. inversion Hs; subst. cbn [firstn apply_evs fold_left].
+  apply IH; [now apply tsvsafe_step|assumption].
+Qed.
+
+Lemma save_tsvsafe d s r evs : save_events save (c_keep cf) d s r = Some evs -> Forall tsvsafe evs.
+Proof.
+  unfold save_events. rewrite gcp. set (t := tmp_path (checkpoint_path base r)). set (X := remove_checkpoint_paths _ _).
+  intros H.
+  assert (evs = [ECr t; EWr t; ECl t (save s); ERn t (checkpoint_path base r)] ++ [EGl] ++ map (@ERm B) X ++ [ESaved r])
+    as -> by (injection H as <-; reflexivity).
+  assert (Ht : forall i, t <> tsv_name i).
+  { intros i. unfold t, tmp_path, checkpoint_path. rewrite <- app_assoc. apply ckpt_not_tsv. }
+  apply Forall_app. split.
+  - constructor; [exact I|]. constructor; [exact I|]. constructor.
+    + cbn [tsvsafe]. intros i E. exfalso. exact (Ht i E).
+    + constructor; [|constructor]. cbn [tsvsafe]. intros i. unfold checkpoint_path. apply ckpt_not_tsv.
+  - constructor; [exact I|]. apply Forall_app. split; [|repeat constructor].
+    apply Forall_forall. intros e He. apply in_map_iff in He. destruct He as (x & <- & _). exact I.
+Qed.
+
+Lemma rounds_tsvsafe start : forall ks j d s tr s',
+  rounds step save cf start ks j d s = Some (tr, s') -> Forall tsvsafe tr.
+Proof.
+  induction ks as [|k ks IH]; intros j d s tr s' H; cbn [rounds] in H.
+  - injection H as <- _. constructor.
+  - destruct (if should_save_checkpoint (c_freq cf) k start then save_events save (c_keep cf) d (step s j) k else Some [])
+      as [sv|] eqn:Esv; [|discriminate].
+    set (e1 := ERound j :: sv ++ (if should_run_eval (c_evf cf) k start then [EPe k] else [])) in *.
+    destruct (rounds step save cf start ks (j + 1) (apply_evs d e1) (step s j)) as [[e2 s'']|] eqn:E2; [|discriminate].
+    assert (Htr : tr = e1 ++ e2) by (injection H as <- _; reflexivity). rewrite Htr. apply Forall_app. split; [|eapply IH; exact E2].
+    unfold e1. constructor; [exact I|]. apply Forall_app. split.
+    + destruct (should_save_checkpoint (c_freq cf) k start); [eapply save_tsvsafe; exact Esv|injection Esv as <-; constructor].
+    + destruct (should_run_eval _ _ _); repeat constructor.
+Qed.
+
+Lemma run_tsvsafe d tr : run step init save load tsv cf d = Some (tr, st R, R) -> Forall tsvsafe tr.
+Proof.
+  unfold run. destruct (load_latest_select base (names d)) as [sel|]; [|discriminate].
+  destruct (match sel with None => Some ([], init) | Some (p, _) => _ end) as [[rd s0]|] eqn:Erd; [|discriminate].
+  destruct (rounds step save cf _ _ _ d s0) as [[tr0 s1]|] eqn:Er; [|discriminate].
+  intros H. injection H as <- Hs Hr. rewrite Hs, Hr.
+  assert (Forall tsvsafe rd) as Hrd.
+  { destruct sel as [[p ?]|]; [|injection Erd as <- _; constructor].
+    destruct (lookup d p) as [[b|]|]; try discriminate. injection Erd as <- _. repeat constructor. }
+  constructor; [exact I|]. constructor; [exact I|]. apply Forall_app. split; [exact Hrd|].
+  apply Forall_app. split; [eapply rounds_tsvsafe; exact Er|].
+  unfold final_events. apply Forall_forall. intros e He. apply in_flat_map in He. destruct He as (i & _ & He).
+  cbn [In] in He. destruct He as [<-|[<-|[<-|[]]]]; cbn [tsvsafe]; try exact I.
+  intros i' E. apply tsv_inj in E. now subst i'.
+Qed.
+
+Lemma reachable_tsv_ok d : reachable d -> tsv_ok d.
+Proof.
+  induction 1 as [|d tr s r m Hreach IH Hrun]; [intros i c H; discriminate|].
+  destruct (run_spec d (reachable_inv d Hreach)) as (tr' & Hr' & _). rewrite Hr' in Hrun. injection Hrun as <- _ _.
+  apply tsvsafe_prefix; [exact IH|]. apply (run_tsvsafe d). exact Hr'.
+Qed.
+
 (* ---- the statements used by Props/C09.v --------------------------------------- *)
 
 Lemma visible_complete d : reachable d -> no_torn_final str_eqb (ckpt_path_matches base) d.
